@@ -16,7 +16,7 @@ RULE = ("G1 specs (recursive and not, incl. rules with >=3 edges and edgeless no
         "driver under python, python -O and python -OO (and through bin/sum_product.py -OO) and must give identical output; bin/sum_product.py <json> -d -G is run the same three ways and must print the in-process value. "
         "non-trivial = cyclic SCC and a rule with >=3 edges or an edgeless node; distinct by case hash")
 ASSUMPTIONS = ["only specs with finite Z and rho_inf(J(x*)) <= 0.9 are judged", "float64 runs use tol=1e-10, float32 runs tol=1e-5 and are compared at 1e-3",
-               "gradient tolerance |g-g_ref| <= 1e-6*|g_ref| + 1e-8*(1+max|g_ref|) (float64 only)",
+               "gradient tolerance |g-g_ref| <= 1e-6*|g_ref| + 1e-8*(1+max|g_ref|) + 4*|g(x*)-g(x*-4B)| (float64 only; B = derived fixed-point bound, the last term is the oracle's own first-order sensitivity of the gradient to the fixed point)",
                "the -O/-OO comparison sees assertion-dependent behaviour on the generated inputs, not assertion-dependent code that does not execute"]
 ESSENTIAL_LABELS = ['recursive', 'rule>=3edges', 'jp:True', 'dtype:float32', 'interpreter-batch', 'bin-script', 'patterned-weight']
 KINDS = ['real', 'log', 'viterbi', 'bool']
@@ -101,6 +101,7 @@ def check(case, ctx):
     spec, refs, rho, fp = r
     start = spec['start']
     grefs = {}
+    gsens = {}
     results = {}
     failed_without_jp = set()
 
@@ -162,7 +163,12 @@ def check(case, ctx):
             except Exception:
                 ctx.violations[-1].detail.update(config=cfg, jp=jp, method=method, sr=kind)
                 return
-            if kind not in grefs: grefs[kind] = grad_reference(spec, fp, kind)
+            if kind not in grefs:
+                grefs[kind] = grad_reference(spec, fp, kind)
+                # derived allowance: the library's fixed point is only within B of x*, and the gradient is a smooth function of it
+                scale_all_ = max([float(np.max(np.abs(v))) for v in refs['real'].values() if np.size(v)] + [0.0])
+                B = (1e-10 / (1 - rho)) if kind == 'real' else scale_all_ * math.expm1(1e-10) / (1 - rho)
+                gsens[kind] = admit.gradient_sensitivity(fp, start, torch.ones_like(fp['x'][start]), list(spec['terminals']), 4 * B + 1e-13 * scale_all_, log_domain=(kind == 'log'))
             for n, fac in fgg.factors.items():
                 want = grefs[kind][n]
                 g = fac.weights.grad
@@ -171,8 +177,8 @@ def check(case, ctx):
                 if kind == 'log': sel &= (np.asarray(spec['terminals'][n]['weights'], dtype=float) > 0)
                 if not sel.any(): continue
                 scale = float(np.max(np.abs(want[sel])))
-                ok = gd.shape == want.shape and bool(np.all(np.abs(gd[sel] - want[sel]) <= 1e-6 * np.abs(want[sel]) + 1e-8 * (1 + scale)))
-                ctx.require(ok, 'wrong-gradient', f'[{cfg}] d/d{n}: got {gd.tolist()} expected {want.tolist()}', factor=n, **det)
+                ok = gd.shape == want.shape and bool(np.all(np.abs(gd[sel] - want[sel]) <= 1e-6 * np.abs(want[sel]) + 1e-8 * (1 + scale) + 4 * gsens[kind][n][sel]))
+                ctx.require(ok, 'wrong-gradient', f'[{cfg}] d/d{n}: got {gd.tolist()} expected {want.tolist()} (allowance for the fixed-point error: {(4 * gsens[kind][n]).tolist()})', factor=n, **det)
     for kind, method, jp, dt in all_configs(spec):
         before = len(ctx.violations)
         run_config(kind, method, jp, dt)
@@ -189,9 +195,13 @@ def check(case, ctx):
     rr = results.get(('real', 'fixed-point', False, 'float64')); ll = results.get(('log', 'fixed-point', False, 'float64'))
     vv = results.get(('viterbi', 'fixed-point', False, 'float64')); bb = results.get(('bool', 'fixed-point', False, 'float64'))
     if rr is not None and ll is not None:
-        with np.errstate(divide='ignore'):
-            m = cmp.compare(ll, np.log(rr), 'log', 'float64', rtol=1e-6, what='Log vs log(Real): ')
-        ctx.require(m is None, 'log-not-log-of-real', m or '')
+        # both runs are within their derived bounds of x*; so exp(Log) and Real differ by at most the sum of the two bounds
+        scale_all_ = max([float(np.max(np.abs(v))) for v in refs['real'].values() if np.size(v)] + [0.0])
+        b_sum = 1e-10 / (1 - rho) + scale_all_ * math.expm1(1e-10) / (1 - rho) + 2e-9 * (1 + scale_all_)
+        with np.errstate(over='ignore'):
+            el = np.exp(ll)
+        ok = el.shape == rr.shape and not np.isnan(el).any() and bool(np.all(np.abs(el - rr) <= b_sum)) and np.array_equal(np.isinf(el), np.isinf(rr))
+        ctx.require(ok, 'log-not-log-of-real', f'exp(Log) {el.tolist()} vs Real {rr.tolist()} (allowed difference {b_sum:.3e})')
     if rr is not None and bb is not None:
         ctx.require(np.array_equal(bb, rr > 0) or bool(np.all((rr > 0) >= bb) and np.all(bb | (rr < 1e-9))), 'bool-not-support', f'bool {bb.tolist()} real {rr.tolist()}')
     if ll is not None and vv is not None:
